@@ -34,6 +34,16 @@ def run_batch(binary, cases, env=None):
 def compare_case(ch, hist, dm, engine, parsed, ref):
     """Returns (verdict, key, detail). verdict in ok|diverged|deviation|crash|timeout|thrown"""
     if ref.diverged:
+        # the correct run does not come to rest within the reference's caps (livelock): the implementation must at least agree with the
+        # reference as far as the reference got - an engine that leaves the loop (or never enters it) deviates
+        if parsed['timeout'] or parsed['crash'] or parsed['thrown']:
+            return ('diverged', None, None)
+        rs = T.ref_steps(ref)[:-2]
+        us = [s for s in parsed['steps'] if s.get('ev') != '#outside']
+        n = min(len(rs), len(us)) if parsed.get('stepcap') else len(rs)
+        d = compare.first_divergence(rs[:n], us[:n] if len(us) >= n else us, dm)
+        if d is not None:
+            return ('deviation', compare.classify(ch, d, dm, engine), dict(d, reference_livelocks=True))
         return ('diverged', None, None)
     if parsed['timeout']:
         return ('timeout', 'timeout', None)
